@@ -352,7 +352,9 @@ inductive Rule where
 deriving DecidableEq, Repr
 
 def touchRule (fn : String) : Option Rule :=
-  if fn ∈ ["set_value", "set_string", "set_string_ex"] then some .always
+  -- `touch`: StorageEngine::touch, called by the consumer-group handlers after a mutation they made on the shared
+  -- state of a stream (on a tree without it: the row the check supplies for those writes, marking nothing)
+  if fn ∈ ["set_value", "set_string", "set_string_ex", "touch"] then some .always
   else if fn ∈ ["zadd", "zincrby", "hset", "hdel", "hincrby", "append", "incr_by", "incr", "ltrim", "lset",
                 "lpush", "rpush", "xadd", "xadd_with_id", "setrange", "expire", "pexpire", "rename"] then some .ifPresent
   else if fn ∈ ["set_string_nx", "set_string_nx_ex", "delete", "lpop", "rpop", "lrem", "sadd", "srem", "spop",
